@@ -10,6 +10,7 @@ onsets relabels the issues and adds one ONSETS_UNORDERED warning.
 """
 import itertools
 import json
+import re
 
 from harness.props.c10 import install_kind_recorder, render_marker, DEFS, NAMES, KINDS, order_sensitive
 
@@ -18,6 +19,7 @@ THEOREMS = [
     "HedVerif.C07.labels_typed",
     "HedVerif.C07.labels_point_partial",
     "HedVerif.C07.labels_merged",
+    "HedVerif.C07.every_row_checked_once",
     "HedVerif.C07.mergeF_eq_blankOr",
     "HedVerif.C07.concat_join_example",
     "HedVerif.C07.concat_join_counterexample",
@@ -79,6 +81,29 @@ UNITS = [("s", 1), ("second", 1), ("seconds", 1), ("Seconds", 1), ("ms", 1000), 
 BAD_DELAY = ["(Delay/1 xyz, (Red))", "(Delay/abc, (Red))", "(Delay/1000 msecond, (Red))"]
 
 
+# onset cells that are text: the rule "a row has a time iff its onset cell parses as a number" stated on its own
+# (pandas' to_numeric grammar for a str cell: optional blanks, sign, decimal digits with an optional point, optional exponent;
+# `nan` spellings parse to NaN = no time; underscores, commas, hex and a bare exponent marker do not parse)
+ONSET_TEXT_NO_TIME = ["1,5", "-", "later", "1.0.0", "1e", " ", "nan", "NaN", "1_0", "", "0x10", "3 s"]
+ONSET_TEXT_TIME = ["+3", "3.", ".5", " 2 ", "1e1", "+0.5", "12.50"]
+_NUM = re.compile(r"^\s*[+-]?(\d+\.?\d*|\.\d+)([eE][+-]?\d+)?\s*$")
+
+
+def onset_time(t):
+    """eighths of a second, or None if the row has no time; `t` is eighths (int), None (the cell n/a) or the cell text"""
+    if t is None or isinstance(t, int):
+        return t
+    if not _NUM.match(t):
+        return None
+    v = float(t) * 8
+    assert v == int(v), t
+    return int(v)
+
+
+def onset_cell(t):
+    return "n/a" if t is None else (t if isinstance(t, str) else str(t / 8))
+
+
 def timed_group(tag, eighths, rng, inner):
     unit, mult = rng.choice(UNITS)
     v = eighths / 8 * mult
@@ -117,16 +142,21 @@ def _gen_spec(rng, n, mode, has_onset, ncols, distinct, plain=False):
                 onsets[rng.randrange(n)] = None
             if rng.random() < 0.1:
                 onsets[rng.randrange(n)] = None
+            if rng.random() < 0.3:      # text that is neither a number nor n/a: the row has no time
+                onsets[rng.randrange(n)] = rng.choice(ONSET_TEXT_NO_TIME)
+            if rng.random() < 0.15:     # other spellings of a number
+                onsets[rng.randrange(n)] = rng.choice(ONSET_TEXT_TIME)
         if rng.random() < 0.5:
             rng.shuffle(onsets)
     cols = [[] for _ in range(ncols)]
     marks = []     # c10-style structure of the temporal markers, for `order_sensitive`
     clean = []
     for r in range(n):
-        numeric = onsets is not None and onsets[r] is not None
+        numeric = onsets is not None and onset_time(onsets[r]) is not None
+        odd = onsets is not None and isinstance(onsets[r], str) and not numeric     # no Delay there (see report)
         frags = [[] for _ in range(ncols)]
         ok = True
-        row_marks = {"time": onsets[r] if numeric else -1000 - r, "markers": [], "delayed": []}
+        row_marks = {"time": onset_time(onsets[r]) if numeric else -1000 - r, "markers": [], "delayed": []}
         for c in range(1 if mode == "sidecar" else ncols):     # the sidecar's columns are filled by gen_sidecar
             if rng.random() < 0.22:
                 continue
@@ -142,14 +172,14 @@ def _gen_spec(rng, n, mode, has_onset, ncols, distinct, plain=False):
                 elif x < 0.73:
                     inner = "(" + rng.choice(["Green", "Black", "Triangle"]) + f", Label/d{uid[0]})"
                     uid[0] += 1
-                    if onsets is not None and rng.random() < 0.7:
+                    if onsets is not None and not odd and rng.random() < 0.7:
                         d = rng.choice([4, 8, 12, 16, 20])
                         frags[c].append(timed_group("Delay", d, rng, inner))
                         if numeric:
                             row_marks["delayed"].append([d, []])
                     else:
                         frags[c].append(timed_group("Duration", rng.choice([4, 8, 24]), rng, inner))
-                elif x < 0.76 and onsets is not None:
+                elif x < 0.76 and onsets is not None and not odd:
                     frags[c].append(rng.choice(BAD_DELAY))
                     ok = False
                 elif x < 0.95:
@@ -212,6 +242,7 @@ def eff_times(spec):
     if spec["onsets"] is None:
         return out
     for r, t in enumerate(spec["onsets"]):
+        t = onset_time(t)
         if t is None:
             continue
         out.append((t, r))
@@ -251,7 +282,7 @@ def tie_sensitive(spec):
     for r in range(n):
         if cl.count(cl[r]) > 1 and not spec["clean"][r]:
             return True
-    return order_sensitive([m for r, m in enumerate(spec["marks"]) if spec["onsets"][r] is not None])
+    return order_sensitive([m for r, m in enumerate(spec["marks"]) if onset_time(spec["onsets"][r]) is not None])
 
 
 def permuted(spec, perm):
@@ -296,7 +327,7 @@ class Real:
         n = len(spec["cols"][0])
         d = {}
         if spec["onsets"] is not None:
-            d["onset"] = ["n/a" if t is None else str(t / 8) for t in spec["onsets"]]
+            d["onset"] = [onset_cell(t) for t in spec["onsets"]]
         if spec["mode"] in ("tabular", "sidecar"):
             d["duration"] = ["n/a"] * n
         names = ["HED", "cat", "val"]
@@ -375,7 +406,7 @@ class Real:
             self.row_cells.setdefault(",".join(livec), livec)
             if livec:
                 self.rows_seen.add(tuple(livec))
-            rows.append({"onset": None if spec["onsets"] is None else spec["onsets"][p], "cells": cells,
+            rows.append({"onset": None if spec["onsets"] is None else onset_time(spec["onsets"][p]), "cells": cells,
                          "cats": [str(raw[name].iloc[p]) for name, _ in cats]})
         return {"op": "c07.validate", "rowAdj": 2 if data.has_column_names else 1,
                 "hasOnset": data.onsets is not None, "columns": columns, "catCols": cats,
@@ -556,6 +587,10 @@ def check_table(ctx, lim, real, spec, req, model, variant, tag="table"):
         ctx.count("headerless:cell-issues-in-column-0", sum(1 for i in obs["issues"] if i["col"] == ["i", 0]))
     if model["sorted"]:
         ctx.count("sorted-copy")
+    if spec["onsets"] and any(isinstance(t, str) for t in spec["onsets"]):
+        ctx.count("text-onset:tables")
+        ctx.count("text-onset:rows-without-time", sum(1 for t in spec["onsets"] if isinstance(t, str) and onset_time(t) is None))
+        ctx.count("text-onset:rows-with-time", sum(1 for t in spec["onsets"] if isinstance(t, str) and onset_time(t) is not None))
     for i in model["issues"]:
         ctx.count("src-" + i[4])
     direct_oracles(ctx, lim, real, case, req, obs, parts, classes)
@@ -734,6 +769,10 @@ W_REFS = dict(plain("sidecar", [24, 8, 16], ["Blue", "Green", "Black"], ["n/a", 
 W_NOHDR = [plain("sheet_nohdr", None, ["Greenish", "Red", "n/a"], ["Blue", "Greenish, Red", "Red/Blue"]),
            dict(plain("sheet_nohdr", None, ["Greenish", "Red"], ["Blue", "Greenish"]), lead=1),
            dict(plain("sheet_nohdr", None, ["Greenish", "Red"], ["Blue", "Greenish"]), lead=0, from_file=True)]
+# onset cells that are text but not n/a: no time, so the row's assembled-row checks belong to `_run_checks`
+W_TEXT_ONSET = [plain("tabular", [8, "1,5", "later", 24], ["Green", "Red, Red", "(Def/A, Onset, (Label/u1))", "Blue"]),
+                plain("sheet", [8, "nan", "-"], ["Green", "Red", "Blue"], ["Blue", "Red", "(Def/A, Offset)"]),
+                plain("tabular", ["+3", " 2 ", ".5", "1_0"], ["Red, Red", "Blue", "(Def/A, Onset, (Label/u2))", "Blue, Blue"])]
 W_MERGED = plain("tabular", [8, 8, 24], ["n/a", "(Def/A, Offset)", "Red"])
 
 
@@ -842,7 +881,7 @@ def _run(ctx, real):
                          "non-trivial = at least 2 rows and 2 non-empty cells")
     span_checks(ctx, real)
     # the known witnesses first: concrete violations on a tree without the repairs
-    specs = [W_MASK, W_MERGED, W_SORTKEY, W_REFS] + W_DELAY + W_NOHDR
+    specs = [W_MASK, W_MERGED, W_SORTKEY, W_REFS] + W_DELAY + W_NOHDR + W_TEXT_ONSET
     n_rand = 700 if ctx.quick() else 9000
     for _ in range(n_rand):
         specs.append(gen_spec(ctx.rng, real))
